@@ -32,7 +32,7 @@ func c13Line(name string, maxLen int64, alphabet string) string {
 // unchanged, then Scan returns an entry or an error, never panics.
 func HarnessC13RawScan() {
 	line := c13Line("l", 3, "0129-+ x")
-	good := "5 tag1\nGET /\n"
+	good := "27 tag1\nGET / HTTP/1.1\r\nHost: h\r\n\r\n\n"
 	file := good + line + "\nabc"
 	d := newRawDecoder(strings.NewReader(file), config.Config{Passes: 1}, nil)
 	a, err := d.Scan(context.Background())
